@@ -1,9 +1,58 @@
 //! Native replay of solver counterexamples through the real public API.
 //! usage: replay <scenario> '<json>'  -> last stdout line `REPRODUCED <what>` or `NOT-REPRODUCED <what>`
+extern crate alloc;
 use serde_json::Value;
 use std::panic::catch_unwind;
 
 mod statuslist;
+
+// the Kani harness bodies, compiled natively (cfg(not(kani))) and fed with CBMC's concrete values
+#[macro_use]
+#[path = "../../kani/src/sym.rs"]
+pub mod sym;
+#[path = "../../kani/src/stubs.rs"]
+pub mod stubs;
+#[path = "../../kani/src/c12.rs"]
+pub mod c12;
+
+fn kani_bodies() -> Vec<(&'static str, fn())> {
+  let mut v: Vec<(&'static str, fn())> = Vec::new();
+  v.extend_from_slice(c12::BODIES);
+  v
+}
+
+/// re-runs harness body `name` natively on the values CBMC produced (in `kani::any()` call order)
+fn kani_replay(cex: &Value) -> Result<String, String> {
+  let name = cex.get("harness").and_then(Value::as_str).unwrap_or("");
+  let vals: Vec<Vec<u8>> = cex
+    .get("vals")
+    .and_then(Value::as_array)
+    .map(|a| {
+      a.iter()
+        .map(|v| v.as_array().map(|b| b.iter().map(|x| x.as_u64().unwrap_or(0) as u8).collect()).unwrap_or_default())
+        .collect()
+    })
+    .unwrap_or_default();
+  let body = kani_bodies().into_iter().find(|(n, _)| *n == name).map(|(_, f)| f).ok_or(format!("no native body for {name}"))?;
+  sym::load(vals);
+  match catch_unwind(body) {
+    Ok(()) => Err(format!("{name}: body ran to completion natively on CBMC's values")),
+    Err(e) => {
+      if e.is::<sym::AssumeViolated>() {
+        Err(format!("{name}: an assumption does not hold natively for CBMC's values"))
+      } else if e.is::<sym::OutOfValues>() {
+        Err(format!("{name}: native run asked for more values than CBMC's trace has"))
+      } else {
+        let msg = e
+          .downcast_ref::<String>()
+          .cloned()
+          .or_else(|| e.downcast_ref::<&str>().map(|s| s.to_string()))
+          .unwrap_or_else(|| "panic".to_owned());
+        Ok(format!("{name}: {msg}"))
+      }
+    }
+  }
+}
 
 fn main() {
   let args: Vec<String> = std::env::args().collect();
@@ -12,6 +61,8 @@ fn main() {
   std::panic::set_hook(Box::new(|_| {}));
   let verdict: Result<String, String> = match scenario {
     "statuslist_set" | "statuslist_get" | "statuslist_set_get" => statuslist::run(scenario, &cex),
+    "statuslist_oneway" => statuslist::oneway(&cex),
+    "kani" => kani_replay(&cex),
     "selftest" => selftest(),
     _ => Err(format!("unknown scenario {scenario}")),
   };
